@@ -53,7 +53,7 @@ Proof. intros Ha. apply (c08_complete_modulo_F14 (FItem (IApprox a v))); [|cbn; 
 Theorem c09_filter_inert_ext a dn v : AttrDesc a ->
   parse ("("%byte :: (a ++ dnstr dn ++ [] ++ ":"%byte :: "="%byte :: esc_all v) ++ [")"%byte]) = Some (ber_item (IExt None (Some a) dn v)).
 Proof. intros Ha. apply (c08_complete_modulo_F14 (FItem (IExt None (Some a) dn v))); [|cbn; tauto].
-  apply D_filter, FS_Item. apply (S_ExtA a dn None v (esc_all v)); [assumption|exact I|apply escape_is_ValEnc]. Qed.
+  apply D_filter, FS_Item. apply (S_ExtA a dn (dnstr dn) None v (esc_all v)); [assumption|apply DnStr_canon|exact I|apply escape_is_ValEnc]. Qed.
 (* ... and as the initial / any / final component of a substring filter (value non-empty there) *)
 Theorem c09_filter_inert_sub a x y z : AttrDesc a -> x <> [] -> y <> [] -> z <> [] ->
   parse ("("%byte :: (a ++ "="%byte :: esc_all x ++ starred ([esc_all y] ++ [esc_all z])) ++ [")"%byte])
